@@ -88,6 +88,9 @@ let eval (op : string) (args : sx list) : sx list =
   | "alias_table", [n; sp; i] ->
     let (b, r) = alias_table (z_of_sx n) (z_of_sx sp) (z_of_sx i) in
     [A "ok"; L (List.map sx_of_z b); L (List.map sx_of_z r)]
+  | "cache_hist", [L h] ->
+    let one = function L [i; k; ok; tf] -> (((z_of_sx i, z_of_sx k), bool_of_sx ok), bool_of_sx tf) | _ -> failwith "step expected" in
+    [A "ok"; L (List.map sx_of_z (entry_counts (List.map one h)))]
   | "alias", _ | "alias_seq", _ -> [A "same"] (* the frame theorems: nothing the caller holds changes *)
   | _ -> [A "unknown-op"]
 
